@@ -186,6 +186,12 @@ def main():
                 key = "ieee:" + kind + (":int64-overflow" if abs(x) >= 2.0 ** 63 else "")
                 ck.violation(key, bad, {"x": x, "hex": x.hex(), "kind": kind})
     ck.sample({"ieee_inputs": [float(s).hex() for s in specials[:6]]})
+    # ---- system layer: the configured boundary designation is what reaches the kernel (PSRun clause MB_Boundaries)
+    from vlib import sysrun
+
+    factors = {"bounds": [{"periodic": [0]}, {"reflective": [1]}, {"periodic": [1], "reflective": [0]}, {"periodic": [0, 1]}], "sample": ["tpcn", "rwm"]}
+    jobs = sysrun.product_jobs(factors, {"n_particles": 8, "clustering": False}, ck.seed + 16, n_total=24)
+    sc, _tr = sysrun.system_part(ck, "C16", jobs, lambda t: (t["meta"]["label"], t["meta"]["seed"]) if any(e["ev"] == "MutateBegin" for e in t["events"]) else None)
     ck.assumptions += [
         "numpy float64 arithmetic is IEEE-754 (floor, fmod and subtraction correctly rounded)",
         "lattice replays use dyadic M so k/M is exact in binary floating point",
@@ -200,6 +206,7 @@ def main():
         "exhaustive": True,
         "oracle_points_validated_against_spec": oracle_checked,
         "ieee_cases": ieee,
+        "system_runs": sc["system_runs"], "system_events_validated": sc["system_events_validated"],
         "tlc_coverage": {k: list(v) for k, v in res.coverage.items()},
         "constants": consts,
     })
